@@ -23,6 +23,22 @@ def _do_download(rig, srv, idx, sub, payload, mode, chunking, tag):
         client.download(idx, sub, payload)
     elif mode == "api_force":
         client.download(idx, sub, payload, force_segment=True)
+    elif mode.startswith("text"):
+        # text mode: "text<buffering>_<size|nosize>"; the caller's text is ASCII, the payload its encoding
+        kind, sized = mode.split("_")
+        buffering = int(kind[4:])
+        size = n if sized == "size" else None
+        fp = client.open(idx, sub, "w", encoding="ascii", buffering=buffering, size=size)
+        text = sx.mkstr(sx.items(payload))      # ASCII: code point i is byte i
+        pos = 0
+        i = 0
+        while pos < n:
+            c = 1 + sx.choice(min(n - pos, 9), "chunk%d" % i) if chunking == "all" else min(n - pos, int(chunking))
+            k = fp.write(text[pos:pos + c])
+            sx.prove(k == c, "text write accepts everything", tag + "/write-count")
+            pos += c
+            i += 1
+        fp.close()
     else:
         kind, sized = mode.split("_")          # raw|bufc|bufp|bufn  x  size|nosize|force
         size = n if sized in ("size", "force") else None
@@ -74,6 +90,9 @@ def download(n, mode, chunking="all", n2=None, mode2="api"):
     idx = sx.fresh_int("idx", 0, 0xFFFF)
     sub = sx.fresh_int("sub", 0, 0xFF)
     payload = sx.fresh_bytes("p", n)
+    if mode.startswith("text"):
+        for b in sx.items(payload):
+            sx.assume(b < 128)
     tag = "C01/download/%s" % mode
     _do_download(rig, srv, idx, sub, payload, mode, chunking, tag)
     sx.reach("download-" + mode.split("_")[0])
@@ -154,6 +173,30 @@ def _one_upload(rig, srv, idx, sub, n, style, last, width, how, seg_len, tag, vn
                     break
                 parts.extend(sx.items(buf)[:k])
             got = sx.mkbytes(parts)
+        elif how.startswith("text"):   # text mode: "text:<buffering>:<chunk>"; value is ASCII without CR
+            _, bsz, chunk = how.split(":")
+            for b in sx.items(value):
+                sx.assume((b < 128) & (b != 13))
+            fp = client.open(idx, sub, "r", encoding="ascii", buffering=int(bsz))
+            if chunk == "all":
+                txt = fp.read()
+            else:
+                parts = []
+                while True:
+                    d = fp.read(int(chunk))
+                    if not d:
+                        break
+                    sx.prove(len(d) <= int(chunk), "text read returns at most the requested count", tag + "/read-size")
+                    parts.extend(sx.cps(d))
+                txt = sx.mkstr(parts)
+            got = sx.mkbytes(sx.cps(txt))
+            fp.close()
+            exp = value
+            sx.observe("got", got)
+            sx.prove(len(sx.items(got)) == len(sx.items(exp)), "returned length", tag + "/length")
+            sx.prove(sx.eq_bytes(got, exp), "returned text is the server's value", tag + "/bytes")
+            sx.prove(srv.finished == fin0 + 1 and srv.state == "idle", "upload ran to completion", tag + "/completed")
+            return
         else:   # buffered: "buf:<policy>:<buffering>:<chunk>"
             _, pol, bsz, chunk = how.split(":")
             sx.env().io_policy = pol
@@ -427,6 +470,14 @@ def jobs(tier):
                         continue
                     out.append(dict(func="download", params=dict(n=n, mode="%s_%s" % (kind, sized), chunking=ch),
                                     weight=n + 2 ** min(n, 6)))
+        if n <= (16 if q else 64):
+            for tb in ("-1", "1", "7"):
+                for sized in ("size", "nosize"):
+                    if tb == "1" and sized == "size" and 1 <= n <= 4:
+                        continue    # a line flush would feed an expedited stream less than `size` bytes (outside)
+                    for ch in (("all",) if n <= (5 if q else 7) else ("4", "9")):
+                        out.append(dict(func="download", params=dict(n=n, mode="text%s_%s" % (tb, sized), chunking=ch),
+                                        weight=n + 2 ** min(n, 7)))
         if n <= (5 if q else 8):
             for sized in (("nosize",) if 1 <= n <= 4 else ("size", "nosize")):
                 out.append(dict(func="download", params=dict(n=n, mode="bufn_%s" % sized, chunking="all"),
@@ -452,8 +503,10 @@ def jobs(tier):
             styles += [("seg-size", "empty"), ("seg-nosize", "empty")]
         for style, last in styles:
             for how in ("api", "raw7", "rawall", "readinto", "buf:c:1024:all", "buf:c:7:3", "buf:c:8:20",
-                        "buf:pyio:16:5"):
+                        "buf:pyio:16:5", "text:-1:all", "text:7:3", "text:1:all", "text:8:20"):
                 if n > 100 and how not in ("api", "rawall"):
+                    continue
+                if n > 64 and how.startswith("text"):
                     continue
                 out.append(dict(func="upload", params=dict(n=n, style=style, last=last, odkind="none", how=how),
                                 weight=n + 1))
@@ -493,14 +546,15 @@ META = dict(
                "ReadableStream.read / both __init__ from symbolic stream state against an arbitrary response frame "
                "(no length bound below 2^32).",
     level_note="Trusted: z3; queue/io/struct models (every explored path sampled for a native re-run on the real io, "
-               "struct and queue-with-hook). Text mode (io.TextIOWrapper, C) is outside.",
+               "struct and queue-with-hook). Text mode uses a model of io.TextIOWrapper (ASCII, default newline handling, "
+               "line buffering), validated by the native replay of every sampled path.",
     bounds=dict(quick="download lengths 0..16,20,21,22,27,28,29,35,64; all caller chunkings (chunks 1..9) for n<=8, fixed "
                       "chunk sizes 1,3,7,8,9 above; buffered writers (C, _pyio exact; nondeterministic for n<=5); "
                       "back-to-back pairs over 7 length classes; upload lengths 0..16,20,21,22,28,64 x all legal "
                       "response styles x 8 reading modes x 8 OD variants; steps: write len 0..9, symbolic size/pos/toggle",
                 thorough="every length 0..100 plus 888..890, 1000, 5000, 10000; all chunkings for n<=14; nondeterministic "
                          "buffer n<=8"),
-    outside_bounds=["text mode", "a caller that lies about size", "an expedited raw stream fed less than size bytes per "
+    outside_bounds=["text mode with encodings other than ASCII, with CR bytes on upload (universal-newline translation is by design) or beyond the 8192-byte text chunk size", "a caller that lies about size", "an expedited raw stream fed less than size bytes per "
                     "write()", "a raw caller ignoring write()'s return value", "payloads > 10000 bytes end-to-end (covered "
                     "by the step harness)", "buffered reads with a buffer smaller than one segment (known finding)"],
     assumptions=["reference server written from CiA 301 7.2.4.3", "responses delivered inside send_message (deferred "
